@@ -29,7 +29,7 @@
  *     connect k ok | p EINPROGRESS | i EINTR | a EAGAIN | r ECONNREFUSED | n ENOENT
  *     socket  y ok | n EMFILE          so_error y 0 | r ECONNREFUSED | t ETIMEDOUT
  *     write   a all | o one byte | n nothing | e EPIPE
- *     read    g nothing (GO_ON) | d headers+data (GO_ON) | f EOF (FINISHED) | x error
+ *     read    g nothing (GO_ON) | d headers (status 200) + data (GO_ON) | f EOF (FINISHED) | x error
  *     env     y ok | E 400+HANDLER_ERROR | F 400+HANDLER_FINISHED
  *     exhausted: connect p, socket y, so_error y, write a, read f, env y
  * output: per op  <results>#<state dump>, ops joined by " | ", then the final
@@ -135,7 +135,9 @@ static handler_t ltv_http_response_read(request_st *r, http_response_opts *opts,
     UNUSED(opts); UNUSED(b); UNUSED(fdn);
     switch (q_pop(&q_rd, 'f')) {
       case 'g': return HANDLER_GO_ON;
-      case 'd': r->resp_body_started = 1; r->write_queue.bytes_in += 1; return HANDLER_GO_ON;
+      case 'd': /* response headers complete (status line parsed), some body data */
+        if (!r->resp_body_started) r->http_status = 200;
+        r->resp_body_started = 1; r->write_queue.bytes_in += 1; return HANDLER_GO_ON;
       case 'x': return HANDLER_ERROR;
       default:  return HANDLER_FINISHED;
     }
